@@ -1036,8 +1036,10 @@ def text_suffix():
                    max_size=6)
 
 
-def server_payload(draw, s_ord, seq):
+def server_payload(draw, s_ord, seq, empties_pct=0):
     tag = 'S%d.%d~' % (s_ord, seq)
+    if empties_pct and draw(st.integers(0, 99)) < empties_pct:
+        return b''              # an empty binary message (untagged: counted, not ordered)
     kind = draw(st.sampled_from(['text', 'text', 'json', 'bytes']))
     if kind == 'text':
         return tag + draw(text_suffix())
@@ -1329,7 +1331,8 @@ class Drawer:
         s = self.ex.sessions[i]
         self.ex.seq += 1
         return {'op': 'app_send', 's': i,
-                'data': rm.tag(server_payload(self.draw, s.ord, self.ex.seq))}
+                'data': rm.tag(server_payload(self.draw, s.ord, self.ex.seq,
+                                              self.profile.get('server_empties_pct', 0)))}
 
     def a_app_burst(self):
         """Many application sends one after the other (each returns before the next is made):
@@ -1432,6 +1435,8 @@ class Drawer:
         if d(st.integers(0, 9)) == 0:
             parts.append(d(st.sampled_from(['%zz', '&&&', 'sid', '=', 'sid=%ff%fe', 't=1.5',
                                             'transport', 'EIO'])))
+        if d(st.integers(0, 11)) == 0:
+            parts += ['x%d=%d' % (k, k) for k in range(40)]     # a long list of other arguments
         a = {'op': 'request', 's': i, 'method': method, 'query': '&'.join(parts)}
         hdrs = []
         if d(st.integers(0, 5)) == 0:
